@@ -50,11 +50,26 @@ let rec emit_ms m s = match m, s with
   | [], _ -> ()
   | x :: m', [] -> zline "M" x; print_string "S -\n"; emit_ms m' []
   | x :: m', y :: s' -> zline "M" x; (match y with Some v -> zline "S" v | None -> print_string "S -\n"); emit_ms m' s'
+let unq = function Inl o -> o | Inr _ -> failwith "Q not allowed in an EQ case"
+let run_eq_case hd body =
+  let parts = String.split_on_char '|' body in
+  let opsof str = List.filter (fun t -> t <> []) (List.map toks (String.split_on_char ';' str)) in
+  let a, b = (match parts with [a] -> opsof a, [] | a :: b :: _ -> opsof a, opsof b | [] -> [], []) in
+  let out m s = zline "M" [m]; (match s with Some v -> zline "S" [v] | None -> print_string "S -\n") in
+  match hd with
+  | ["EQ"; "D"; lk; n] -> let hs = lk <> "none" in let a = List.map parse_dop a and b = List.map parse_dop b in out (d_eq_case hs !variant (ni n) a b) (d_eq_spec hs (ni n) a b)
+  | ["EQ"; "U"; lk; n] -> let hs = lk <> "none" in let a = List.map parse_uop a and b = List.map parse_uop b in out (u_eq_case hs !variant (ni n) a b) (u_eq_spec hs (ni n) a b)
+  | ["EQ"; "DM"; _; n] -> let a = List.map parse_mop a and b = List.map parse_mop b in out (dm_eq_case !variant (ni n) a b) (m_eq_spec false (ni n) a b)
+  | ["EQ"; "UM"; _; n] -> let a = List.map parse_mop a and b = List.map parse_mop b in out (um_eq_case !variant !um_set0 (ni n) a b) (m_eq_spec true (ni n) a b)
+  | ["EQ"; "DW"; _; n] -> let a = List.map parse_wop a and b = List.map parse_wop b in out (dw_eq_case !variant (ni n) a b) (w_eq_spec false (ni n) a b)
+  | ["EQ"; "UW"; _; n] -> let a = List.map parse_wop a and b = List.map parse_wop b in out (uw_eq_case !variant !uw_canon (ni n) a b) (w_eq_spec true (ni n) a b)
+  | _ -> failwith "bad EQ case"
 let run_case line =
   match String.index_opt line ':' with
   | None -> failwith ("bad case: " ^ line)
   | Some c ->
     let hd = toks (String.sub line 0 c) and body = String.sub line (c+1) (String.length line - c - 1) in
+    if (match hd with "EQ" :: _ -> true | _ -> false) then run_eq_case hd body else
     let ops = List.filter (fun t -> t <> []) (List.map toks (String.split_on_char ';' body)) in
     (match hd with
      | ["D"; lk; n] ->
